@@ -12,7 +12,7 @@ from . import c01
 from .indexfx import (DEPS, TASK, TASKID, TGTS, index_effects, register_effects, unregister_effects)
 
 PROP = "C02"
-FLOORS = {"C02.R1": 4, "C02.R2": 8, "C02.R3": 4, "C02.R4": 6, "C02.R5": 3, "C02.R6": 30}
+FLOORS = {"C02.R1": 4, "C02.R2": 8, "C02.R3": 4, "C02.R4": 6, "C02.R5": 3, "C02.R6": 30, "C02.R7": 5}
 META = {
     "explanation": "run_tasks executes its argument once each in the given order; toposort/_dfs is a reverse-post-order DFS with "
                    "a grow-only visited set (termination and at-most-once on cycles); no call on the assignment path falls back to "
@@ -174,17 +174,34 @@ def inverse_effects(col, rule, only_indices=None, q="Manager.unregister"):
 
 
 def check(col: Collector):
-    _run_tasks(col)
-    check_toposort(col, "C02.R2")
-    _no_over_trigger(col)
-    _edges(col)
+    with col.rule():
+        _run_tasks(col)
+    with col.rule():
+        check_toposort(col, "C02.R2")
+    with col.rule():
+        _no_over_trigger(col)
+    with col.rule():
+        _edges(col)
     # the trigger closure (shared with C01.R2) decides which tasks are offered to the DFS at all
-    c01._trigger_closure(col, "C02.R3")
+    with col.rule():
+        c01._trigger_closure(col, "C02.R3")
     # a stale scheduling edge makes tasks outside the dependent set run
-    inverse_effects(col, "C02.R5", only_indices=("rtasks", "deptasks", "tartasks"))
+    with col.rule():
+        inverse_effects(col, "C02.R5", only_indices=("rtasks", "deptasks", "tartasks"))
     # the set of triggered tasks is read off the tasks' dependency sets: they must be the expression's full read set
     from . import c05
     from .common import shared
-    shared(col, "C02.R6", [c05._structure, c05._readset, c05._accumulator],
-           why="a task is triggered (and ordered after its producers) through its declared dependencies only: they must be the "
-               "expression's full read set, for every node class")
+    with col.rule():
+        shared(col, "C02.R6", [c05._structure, c05._readset, c05._accumulator],
+               why="a task is triggered (and ordered after its producers) through its declared dependencies only: they must be the "
+                   "expression's full read set, for every node class")
+    # redefinition through load()/copy_expr_from leaves no stale trigger entry (tasks outside the dependent set would run) ...
+    from . import c03
+    from .common import construct_tag
+    with col.rule():
+        shared(col, "C02.R7", [c03.load_protocol], why="a task registered over a live one keeps the old trigger and ordering entries")
+    # ... and an assignment always stores and then runs the dependent tasks (never skipped because the value 'is already there')
+    with col.rule():
+        shared(col, "C02.R7", [c01._set_value_protocol],
+               select=lambda o: construct_tag(o) in ("write-on-every-path", "propagate-after-write", "trigger-set"),
+               why="a skipped propagation runs none of the tasks that depend on the assigned location")
